@@ -61,17 +61,22 @@ def freqs(rep, prog):
         ok = guarded = term_equal(as_list(core_t), as_list(strip(sp2, ('sorted', 'list'))))
     rep.ob('R09.freqs', 'per-component', True if ok else (None if has_opaque(core_t) or not isinstance(core_t, Comp) else False),
            f'contributions = {core_t!r:.300}', site, lhs=core_t, rhs=core_s)
-    # components without a frequency: the KeyError handler yields nothing (in whichever function reads value['w'])
-    cands = [f.node] + [prog.mod(ms).defs.get(nm) for ms, nm in ev.calls if isinstance(prog.mod(ms).defs.get(nm), ast.FunctionDef)]
+    # components without a frequency contribute no entry, a component with a frequency contributes it: the function evaluated on a circuit
+    # with ONE literal component (decidable lookup errors), wherever the reading of value['w'] lives
+    def one(val):
+        from ..terms import Rec as _Rec
+        e_ = Evaluator(prog); e_.raise_lookup_errors = True
+        comp = _Rec('Component', {'type': 'resistor', 'id': 'X1', 'nodes': ('1', '2'), 'value': val})
+        return call(e_, f, [_Rec('Circuit', {'components': [comp], 'ground_node': '0'}), A('w_max')])
+    def entries(t_):
+        # the listed frequencies, unwrapped from sorted(list(set(...)))
+        while isinstance(t_, Opq) and t_.k and t_.k[0] in ('sorted', 'list', 'set') and len(t_.k) == 2 and isinstance(t_.k[1], (Opq, list, tuple)): t_ = t_.k[1]
+        if isinstance(t_, Opq) and t_.k and t_.k[0] == 'set': return list(t_.k[1:])
+        return list(t_) if isinstance(t_, (list, tuple)) else None
+    e0, e1 = entries(one({'R': A('R')})), entries(one({'w': A('w0'), 'V': A('V')}))
     okh = None
-    for fn in cands:
-        for n in ast.walk(fn):
-            if isinstance(n, ast.Try) and "['w']" in ast.unparse(ast.Module(body=n.body, type_ignores=[])):
-                for h in n.handlers:
-                    if h.type is not None and 'KeyError' in ast.unparse(h.type):
-                        last = h.body[-1]
-                        okh = (isinstance(last, ast.Return) and ast.unparse(last.value) in ('[]', 'list()', '()')) or isinstance(last, ast.Continue)
-    if okh is None and guarded: okh = True
+    if e0 is not None and e1 is not None:
+        okh = e0 == [] and len(e1) == 1 and tkey(e1[0]) == tkey(A('w0'))
     rep.ob('R09.freqs', 'no-frequency', okh, 'components without a frequency contribute no entry', site)
 
 
